@@ -15,7 +15,9 @@ RULE = (
     "Expectations are derived from the index's own dense content, so a C06 defect does not leak in; a raising "
     "operation ends the history (C06 decides that). Non-trivial = a history with >= 3 mutating steps containing "
     "append-after-shift, update-after-append, a merging reindex or a collapse omitting a present value. "
-    "Distinct by the full operation list."
+    "Distinct by the full operation list. construction: the C01 array strategy (all shape classes, common / counts / "
+    "mapping options) through from_array, result checked with the same well-formedness predicate; non-trivial = at "
+    "least 2 distinct values and a mapping or an explicit common value."
 )
 ASSUMPTIONS = [
     "histories start from well-formed indexes and respect the preconditions listed for C06",
@@ -29,4 +31,45 @@ def runner(sub, tier, seed, shard, nshards, rec):
     M.run_machine(sub, tier, seed, shard, nshards, rec, "C07", EX, STEPS)
 
 
-SUBS = [Sub("histories", M.replay, runner=runner, examples=EX, weight=5)]
+def construction_cases(tier):
+    from . import c01
+
+    return c01.cases(tier)
+
+
+def check_construction(case, rec):
+    """Construction from arrays with every option combination yields a well-formed index."""
+    import numpy
+
+    from catii import iindex
+
+    from . import c01
+
+    flat = c01.flat_values(case)
+    a = numpy.array(flat, dtype=numpy.int64).reshape(case["shape"])
+    kwargs = {}
+    if case["common"] is not None:
+        kwargs["common"] = case["common"]
+    if case["counts"]:
+        kwargs["counts"] = {v: flat.count(v) for v in sorted(set(flat))}
+    if case["mapping"] is not None:
+        kwargs["mapping"] = {k: v for k, v in case["mapping"]}
+    if a.size == 0 and case["common"] is None and not kwargs.get("mapping"):
+        return
+    try:
+        ix = iindex.from_array(a, **kwargs)
+    except Exception:
+        rec.note("from_array raised (C01 decides that)")
+        return
+    M.wellformed(ix, "from_array(%s array, common=%r, counts=%s, mapping=%s)" % (
+        case["cls"], case["common"], case["counts"], case["mapkind"]), "from_array")
+    rec.note("class=" + case["cls"], "mapping=" + case["mapkind"])
+    if len(set(flat)) >= 2 and (case["mapping"] is not None or case["common"] is not None):
+        rec.nontrivial()
+
+
+SUBS = [
+    Sub("histories", M.replay, runner=runner, examples=EX, weight=5),
+    Sub("construction", check_construction, strategy=construction_cases,
+        examples={"quick": 8000, "thorough": 200000}),
+]
